@@ -1315,7 +1315,8 @@ class Sim(object):
         elif kind == "total":
             self.check_total(spec, argv, status, out, step_no)
         elif kind == "rec":
-            self.check_rec(step, spec, argv, mode, status, out, step_no)
+            self.check_rec(step, spec, argv, mode, status, out, step_no,
+                           before)
         elif kind == "bad":
             self.check_bad(step, spec, argv, status, out, step_no)
 
@@ -1637,7 +1638,8 @@ class Sim(object):
         return cm.render_strf(pf["strf"], cm.civil_fields(mode, t_us, off),
                               off, t_us)
 
-    def check_rec(self, step, spec, argv, mode, status, out, step_no):
+    def check_rec(self, step, spec, argv, mode, status, out, step_no,
+                  before=None):
         from metomi.isodatetime import parsers
         text = step.get("spec_text") or spec["text"]
         refused = status.startswith("exitmsg:") or status.startswith("exit:")
@@ -1710,61 +1712,78 @@ class Sim(object):
             # calendar rules (single-month steps clamp)
             nominal = cm.parse_designator_duration(spec["interval_text"])
         pf = spec.get("pf")
-        if (ius is None and nominal is None) or (
-                n["time"] is None) or n["zone"] is None:
+        if (ius is None and nominal is None) or n["time"] is None:
             return
         if pf is not None and ("notation" not in pf or w["us"] or (
                 (ius or 0) % 10 ** 6) or (
                 pf["notation"]["date"] in ("y", "c") and w["rep"] == "week")):
             return
-        off = w["off"]
-        t0 = cm.written_instant_us(w, mode, off)
-        reps = spec["reps"]
         if ius == 0 and nominal is None:
             return
-        if nominal is not None:
-            count = max(maxn, 0) if reps is None else min(reps, max(maxn, 0))
-            ts = []
-            t = t0
-            for _ in range(count):
-                ts.append(t)
-                t = cm.shift_instant(mode, w["rep"], t, off, [nominal])
-            ius = 0
-        elif spec["form"] == 4:
-            if reps is None:
-                ts = [t0 - k * ius for k in range(max(maxn, 0))]
-            else:
-                first = t0 - (reps - 1) * ius
-                ts = [first + k * ius for k in range(min(reps, max(maxn, 0)))]
-        else:
-            count = max(maxn, 0) if reps is None else min(reps, max(maxn, 0))
-            ts = [t0 + k * ius for k in range(count)]
-        out_n = {"date": cm.rep_of(n) + "_ext", "ystyle": n["ystyle"],
-                 "time": "hms_dec" if (w["us"] or (ius or 0) % 10 ** 6)
-                 else "hms",
-                 "dec": ",", "zone": "Z" if off == 0 else "hhmm"}
-        if pf is not None:
-            self.count("probe.rec_iso_print_format")
-            out_n = pf["notation"]
-            if out_n["zone"] == "Z":
-                off = 0
-            if pf.get("lit_off") is not None:
-                off = pf["lit_off"]
-        want = []
-        for t in ts:
-            f = cm.civil_fields(mode, t, off)
-            if out_n["time"] == "hms_dec" and f["us"] == 0:
-                txt = cm.render(dict(out_n, time="hms"), f, off)
-            else:
-                txt = cm.render(out_n, f, off)
-            want.append(txt)
-        if None in want:
+        if n["zone"] is not None:
+            zones = [w["off"]]
+        elif before is None:
             return
-        if lines != want:
+        else:
+            # points written without a zone: UTC under --utc, the local zone
+            # otherwise (the offsets the world presented during the call)
+            self.count("probe.rec_zoneless_points")
+            zones = [0] if spec.get("utc") else self.local_offsets(before)
+        reps = spec["reps"]
+        wants = []
+        for zone_off in zones:
+            off = zone_off
+            t0 = cm.written_instant_us(w, mode, off)
+            step_us = ius
+            if nominal is not None:
+                count = max(maxn, 0) if reps is None else min(
+                    reps, max(maxn, 0))
+                ts = []
+                t = t0
+                for _ in range(count):
+                    ts.append(t)
+                    t = cm.shift_instant(mode, w["rep"], t, off, [nominal])
+                step_us = 0
+            elif spec["form"] == 4:
+                if reps is None:
+                    ts = [t0 - k * step_us for k in range(max(maxn, 0))]
+                else:
+                    first = t0 - (reps - 1) * step_us
+                    ts = [first + k * step_us
+                          for k in range(min(reps, max(maxn, 0)))]
+            else:
+                count = max(maxn, 0) if reps is None else min(
+                    reps, max(maxn, 0))
+                ts = [t0 + k * step_us for k in range(count)]
+            out_n = {"date": cm.rep_of(n) + "_ext", "ystyle": n["ystyle"],
+                     "time": "hms_dec" if (w["us"] or (step_us or 0) % 10 ** 6)
+                     else "hms",
+                     "dec": ",", "zone": "Z" if off == 0 else "hhmm"}
+            if pf is not None:
+                self.count("probe.rec_iso_print_format")
+                out_n = pf["notation"]
+                if out_n["zone"] == "Z":
+                    off = 0
+                if pf.get("lit_off") is not None:
+                    off = pf["lit_off"]
+            want = []
+            for t in ts:
+                f = cm.civil_fields(mode, t, off)
+                if out_n["time"] == "hms_dec" and f["us"] == 0:
+                    txt = cm.render(dict(out_n, time="hms"), f, off)
+                else:
+                    txt = cm.render(out_n, f, off)
+                want.append(txt)
+            if None in want:
+                return
+            wants.append(want)
+        if lines not in wants:
+            want = wants[0]
             self.violate("cli_model", "rec", step_no, argv=argv,
                          got_lines=lines[:12], want_lines=want[:12],
                          form=spec["form"],
                          fractional_anchor=bool(w["us"]),
+                         zoneless_points=n["zone"] is None,
                          only_last_point_missing=(
                              len(want) > 1 and lines == want[:-1]
                              and len(want) == (spec["reps"] or 0)))
